@@ -509,13 +509,27 @@ def C07_parser_steps_regular_stmt : Prop :=
       PModel.interpRow toks rec (PModel.stepsOf fn) start = some (PModel.parseBody toks rec nt start)
 theorem C07_parser_steps_regular : C07_parser_steps_regular_stmt := PModel.regular_bodies
 
-/-- The rows of the other 14 functions (binders, application, arrow, negation, variable, literal, and the three functions
-with recovery scans) are the rows the model was written from, and the 36 rows are the 36 functions, each once. -/
+/-- For 11 more functions — `parse_variable`, `parse_integer_literal`, `parse_lambda`, `parse_lambda_implicit`, the four annotated binders,
+`parse_non_dependent_pi`, `parse_application`, `parse_negation` — the model body is the interpretation of the extracted row by a generic
+combinator of that shape (`binderG`, `lambdaG`, `lambdaImplicitG`, `arrowG`, `applicationG`, `negationG`): every token kind consumed, every
+nonterminal called (through `try_eval!` or plainly), the node built and its `implicit` flag come from the row.  Together with
+`C07_parser_steps_regular`: 33 of the 36 packrat functions. -/
+def C07_parser_steps_regular2_stmt : Prop :=
+  ∀ (toks : Array PModel.PTok) (rec : PModel.NT → Nat → PModel.ParseM PModel.PResult) (start : Nat),
+    ∀ fn ∈ PModel.regularFns2, ∃ nt, PModel.ntOfFn fn = some nt ∧
+      PModel.interpRow2 toks rec (PModel.stepsOf fn) start = some (PModel.parseBody toks rec nt start)
+theorem C07_parser_steps_regular2 : C07_parser_steps_regular2_stmt := PModel.regular_bodies2
+
+/-- The rows of the remaining 3 functions — `parse_let`, `parse_if`, `parse_group`, the ones with error-recovery scans — are the rows the
+model was written from, the 36 rows are the 36 functions, each once, in the order of the `Nonterminal` enum, and the three lists
+partition them. -/
 def C07_parser_steps_irregular_stmt : Prop :=
   (∀ r ∈ PModel.irregularRows, PModel.stepsOf r.1 = r.2) ∧
   Generated.parserSteps.length = 36 ∧
   (∀ r ∈ Generated.parserSteps, (PModel.ntOfFn r.1).isSome) ∧
-  (Generated.parserSteps.map (fun r => (PModel.ntOfFn r.1).map PModel.NT.idx)) = (List.range 36).map some
+  (Generated.parserSteps.map (fun r => (PModel.ntOfFn r.1).map PModel.NT.idx)) = (List.range 36).map some ∧
+  (PModel.regularFns ++ PModel.regularFns2 ++ PModel.irregularRows.map (·.1)).length = 36 ∧
+  (∀ r ∈ Generated.parserSteps, r.1 ∈ PModel.regularFns ++ PModel.regularFns2 ++ PModel.irregularRows.map (·.1))
 theorem C07_parser_steps_irregular : C07_parser_steps_irregular_stmt := by
   unfold C07_parser_steps_irregular_stmt; decide
 
